@@ -931,7 +931,7 @@ fn stringify(
             let row_separator = if locale.numbers.symbols.decimal == "." {
                 ';'
             } else {
-                '/'
+                '\\'
             };
             let col_separator = if row_separator == ';' { ',' } else { ';' };
 
